@@ -63,3 +63,12 @@ claim("C07", "E1-bfs", "explicit-state BFS over the real TextArchive to the fixp
       "The complete reachable state space (≈11k states, ≈385k transitions) of set_message/delete_message/set_title over 3 keys x 10 escape-heavy messages x 2 titles from a new and a parsed archive is explored; every transition is executed on a fresh real object and all observers (order, has/get, title, dirty flag, set-back-what-you-got, serialize→parse order/cleanliness) are compared with an insertion-ordered reference map.",
       "Trusted: ref_text.rs escape/unescape model (from the statement). Key and message alphabets are small and fixed.",
       "DESIGN.md §4 C07")
+
+claim("C15", "E2-enumerate", "bounded-exhaustive enumeration of ordered file maps x conforming re-arrangements, strict reference reader of the image",
+      "All 13 089 ordered maps of ≤3 files over 4 names (incl. empty and non-ASCII) x 8 lengths around multiples of 32, plus archives of 255/256/4096 (65 535 thorough) files: build→parse identity, image validated by an independent reader (count, names, offsets, sizes, 32-byte alignment) and mila's parser run on all 16 re-arrangements of each image written by the reference builder.",
+      "Trusted: ref_pack.rs builder/reader. File contents are position-dependent byte patterns.",
+      "DESIGN.md §4 C15")
+claim("C16", "E2-enumerate", "bounded-exhaustive enumeration of arc images over file sets x all record orders x all body placements x header variants, plus a planted-error family, both arithmetic builds",
+      "Every image over ≤3 files with lengths {0,1,3,4,5,32}, padded/un-padded, tables before/after bodies, all record permutations x all body permutations is extracted and compared entry by entry; for each, images lacking a label, a name, or with size/offset pushed past the data region or wrapping a 32-bit sum must be rejected in both builds.",
+      "Trusted: ref_pack.rs arc builder on top of the reference bin-archive writer.",
+      "DESIGN.md §4 C16")
